@@ -52,7 +52,7 @@ PROPS = {
     "C12": dict(streams=["fix", "ent", "tbl"], exhaustive="SLIT 0..3 localities: all op sequences up to length 3 (2 for 3x3) over all cell pairs and 2 values",
                 nontrivial="at least one cell assignment"),
     "C05": dict(streams=["tbl"], exhaustive="", nontrivial="history with at least one add"),
-    "C07": dict(streams=["pkglen", "pkgblk"], exhaustive="all 2^28 lengths x both forms via the hook (block digests), in both tiers",
+    "C07": dict(streams=["pkglen", "pkgblk", "aml", "amlbig"], exhaustive="all 2^28 lengths x both forms via the hook (block digests), in both tiers",
                 nontrivial="length > 0"),
     "C08": dict(streams=["int", "intblk"], exhaustive="u8 and u16 through all five entry points (quick); u32 through u32/u64/usize (thorough), block digests",
                 nontrivial="value > 1"),
